@@ -1,6 +1,5 @@
 (* E1 codec, C03: whatever the decoder returns is a well-formed value (rwf0: rwf without the condition on the size of
-   re-encoded extension object bodies) and, unless a DateTime left the 100 ns grid (Buffer.ReadTime wrapped), its own
-   normal form.  For inputs of at most MaxInt32 bytes (strings longer than that cannot be re-encoded), any registry of
+   re-encoded extension object bodies) and its own normal form.  For inputs of at most MaxInt32 bytes (strings longer than that cannot be re-encoded), any registry of
    descriptors satisfying desc_ok, any nesting budget. *)
 From Coq Require Import NArith ZArith List Bool Lia.
 From Coq.Strings Require Import Byte.
@@ -119,14 +118,19 @@ Proof.
   destruct o as [d|]; [|apply post_ret; reflexivity]. apply post_tick_bind. apply post_ret. exact Ho.
 Qed.
 
-Lemma post_read_time : post (fun t => time_ok t = true) read_time.
+Lemma post_read_time : post (fun t => time_ok t = true /\ norm_time t = t) read_time.
 Proof.
-  unfold read_time. eapply post_bind; [apply post_read_n|]. intros d _. cbv zeta.
-  destruct (unle d =? 0); apply post_ret; [reflexivity|]. cbn [time_ok].
-  set (x := ((unle d - time_offset) mod pow8 8 * 100) mod pow8 8).
-  assert (Hx : 0 <= x < pow8 8) by (apply Z.mod_pos_bound; apply pow8_pos).
-  pose proof (to_signed_range 8 x ltac:(lia) Hx) as H. rewrite pow8_8 in H.
-  apply andb_true_intro. split; [apply Z.leb_le|apply Z.ltb_lt]; lia.
+  unfold read_time. eapply post_bind; [apply post_read_n|]. intros d [Hd _]. cbv zeta.
+  destruct (unle d =? 0) eqn:E0; [apply post_ret; split; reflexivity|]. apply Z.eqb_neq in E0.
+  pose proof (unle_range d) as Hu. assert (Hl : length d = 8%nat) by (unfold blen in Hd; lia). rewrite Hl, pow8_8 in Hu.
+  set (t := to_signed 8 (unle d)).
+  assert (Ht : -9223372036854775808 <= t < 9223372036854775808 /\ t <> 0).
+  { unfold t, to_signed. rewrite pow8_8. destruct (unle d <? 18446744073709551616 / 2) eqn:E; [apply Z.ltb_lt in E|apply Z.ltb_ge in E]; lia. }
+  destruct ((t - time_offset) * 100 =? zero_time_ns) eqn:Ez; [apply post_ret; split; reflexivity|].
+  apply post_ret. cbn [time_ok norm_time]. cbv zeta. rewrite Z.div_mul by lia.
+  replace (t - time_offset + time_offset) with t by lia. split.
+  - apply andb_true_intro. split; [apply Z.leb_le|apply Z.ltb_lt]; lia.
+  - replace (t =? 0) with false by (symmetry; apply Z.eqb_neq; lia). rewrite Ez. reflexivity.
 Qed.
 
 Lemma post_dec_n : forall A (P : A -> Prop) (d : dec A) n, post P d -> post (fun l => Forall P l /\ length l = n) (dec_n d n).
@@ -145,14 +149,7 @@ Qed.
 
 (* ------------------------------------------------------------------ what is claimed of a decoded value *)
 Definition Pv (reg : list (Z * Z * ty)) (t : ty) (v : val) : Prop :=
-  rwf0 reg t v = true /\ (grid v = true -> rnorm reg t v = v).
-
-Definition tgrid (t : option Z) : bool := match t with None => true | Some ns => Z.rem ns 100 =? 0 end.
-Lemma norm_time_grid : forall t, tgrid t = true -> norm_time t = t.
-Proof.
-  intros [ns|] H; [|reflexivity]. cbn in *. apply Z.eqb_eq in H. f_equal.
-  pose proof (Z.quot_rem' ns 100). lia.
-Qed.
+  rwf0 reg t v = true /\ rnorm reg t v = v.
 
 Lemma imp_intro : forall b c, (b = true -> c = true) -> imp b c = true.
 Proof. intros [|] c H; [apply H|]; reflexivity. Qed.
@@ -221,29 +218,6 @@ Proof.
 Qed.
 
 (* ------------------------------------------------------------------ unfolding equations *)
-Lemma grid_diag : forall m a b c d i s inner,
-  grid (VDiag m a b c d i s inner) = match inner with None => true | Some x => grid x end.
-Proof. reflexivity. Qed.
-Lemma grid_datavalue : forall m x s st sp svt svp,
-  grid (VDataValue m x s st sp svt svp) = (match x with None => true | Some y => grid y end) && tgrid st && tgrid svt.
-Proof. reflexivity. Qed.
-Lemma grid_variant : forall m a dl ds p, grid (VVariant m a dl ds p) = match p with None => true | Some y => grid y end.
-Proof. reflexivity. Qed.
-Lemma grid_extobj : forall m t b, grid (VExtObj m t b) = match b with None => true | Some y => grid y end.
-Proof. reflexivity. Qed.
-Lemma grid_slice : forall l, grid (VSlice (Some l)) = forallb grid l.
-Proof.
-  intros l. change (grid (VSlice (Some l))) with
-    ((fix go (l : list val) : bool := match l with [] => true | x :: r => grid x && go r end) l).
-  induction l as [|x r IH]; [reflexivity|]. cbn [forallb]. rewrite <- IH. reflexivity.
-Qed.
-Lemma grid_struct : forall l, grid (VStruct l) = forallb grid l.
-Proof.
-  intros l. change (grid (VStruct l)) with
-    ((fix go (l : list val) : bool := match l with [] => true | x :: r => grid x && go r end) l).
-  induction l as [|x r IH]; [reflexivity|]. cbn [forallb]. rewrite <- IH. reflexivity.
-Qed.
-
 Lemma rwf0_datavalue : forall reg m value status st sp svt svp,
   rwf0 reg (TCustom CDataValue) (VDataValue m value status st sp svt svp) =
   byte_ok m &&
@@ -281,15 +255,15 @@ Section DecCustoms.
     intros inner [Hin1 Hin0]. apply post_ret. split.
     - cbv beta in Hm. rewrite rwf0_diag, Hm. cbn [andb]. repeat (apply andb_true_intro; split); try assumption; try (apply imp_intro; assumption).
       apply imp_intro. intros Hb. destruct (Hin1 Hb) as [i [-> [Hw _]]]. exact Hw.
-    - rewrite grid_diag, rnorm_diag. intros Hg.
+    - rewrite rnorm_diag.
       rewrite (if_dflt _ _ sym 0 Hs0), (if_dflt _ _ ns 0 Hn0), (if_dflt _ _ loc 0 Hl0), (if_dflt _ _ lt 0 Ht0),
               (if_dflt _ _ info [] Hi0), (if_dflt _ _ st 0 Hst0).
       f_equal. destruct (bit mask 6); [|symmetry; apply Hin0; reflexivity].
-      destruct (Hin1 eq_refl) as [i [-> [_ Hn]]]. rewrite (Hn Hg). reflexivity.
+      destruct (Hin1 eq_refl) as [i [-> [_ Hn]]]. rewrite Hn. reflexivity.
   Qed.
 
   Lemma zero_variant_Pv : Pv reg (TCustom CVariant) zero_variant.
-  Proof. split; [reflexivity|intros _; reflexivity]. Qed.
+  Proof. split; [reflexivity|reflexivity]. Qed.
 
   Lemma post_datavalue : post (Pv reg (TCustom CVariant)) (rec (TCustom CVariant)) ->
     post (Pv reg (TCustom CDataValue)) (dec_datavalue rec).
@@ -302,19 +276,22 @@ Section DecCustoms.
       - apply post_tick_bind. apply post_ret. split; [apply zero_variant_Pv|reflexivity]. }
     intros v [[Hvw Hvn] Hv0].
     eapply post_bind; [eapply post_optf; apply (post_read_uok 4)|]. intros status [Hs1 Hs0].
-    eapply post_bind; [eapply post_optf; apply post_read_time|]. intros st [Ht1 Ht0].
+    eapply post_bind; [eapply post_optf; apply post_read_time|]. intros st [Ht1' Ht0].
+    assert (Ht1 : bit mask 2 = true -> time_ok st = true) by (intros Hb; exact (proj1 (Ht1' Hb))).
     eapply post_bind; [eapply post_optf; apply (post_read_uok 2)|]. intros sp [Hp1 Hp0].
-    eapply post_bind; [eapply post_optf; apply post_read_time|]. intros svt [Hvt1 Hvt0].
+    eapply post_bind; [eapply post_optf; apply post_read_time|]. intros svt [Hvt1' Hvt0].
+    assert (Hvt1 : bit mask 3 = true -> time_ok svt = true) by (intros Hb; exact (proj1 (Hvt1' Hb))).
     eapply post_bind; [eapply post_optf; apply (post_read_uok 2)|]. intros svp [Hvp1 Hvp0].
     apply post_ret. split.
     - cbv beta in Hm. rewrite rwf0_datavalue, Hm. cbn [andb]. repeat (apply andb_true_intro; split); try assumption; try (apply imp_intro; assumption).
       apply imp_intro. intros _. exact Hvw.
-    - rewrite grid_datavalue, rnorm_datavalue. intros Hg. apply andb_true in Hg. destruct Hg as [Hg Hg3].
-      apply andb_true in Hg. destruct Hg as [Hg1 Hg2].
+    - rewrite rnorm_datavalue.
       rewrite (if_dflt _ _ status 0 Hs0), (if_dflt _ _ sp 0 Hp0), (if_dflt _ _ svp 0 Hvp0).
-      rewrite (norm_time_grid st Hg2), (norm_time_grid svt Hg3).
-      rewrite (if_dflt _ _ st None Ht0), (if_dflt _ _ svt None Hvt0).
-      f_equal. destruct (bit mask 0); [rewrite (Hvn Hg1); reflexivity|rewrite (Hv0 eq_refl); reflexivity].
+      replace (if bit mask 2 then norm_time st else None) with st
+        by (destruct (bit mask 2); [symmetry; exact (proj2 (Ht1' eq_refl))|exact (Ht0 eq_refl)]).
+      replace (if bit mask 3 then norm_time svt else None) with svt
+        by (destruct (bit mask 3); [symmetry; exact (proj2 (Hvt1' eq_refl))|exact (Hvt0 eq_refl)]).
+      f_equal. destruct (bit mask 0); [rewrite Hvn; reflexivity|rewrite (Hv0 eq_refl); reflexivity].
   Qed.
 End DecCustoms.
 
@@ -358,15 +335,6 @@ Proof.
   - rewrite norm_payload_slice. f_equal. f_equal. rewrite leaves_slice in HF.
     induction H as [|x r Hx _ IH]; [reflexivity|]. cbn [flat_map] in HF. apply Forall_app in HF. destruct HF as [H1 H2].
     cbn [map]. rewrite (Hx H1), (IH H2). reflexivity.
-Qed.
-
-Lemma grid_leaves : forall p, grid p = true -> Forall (fun x => grid x = true) (leaves p).
-Proof.
-  induction p using val_ind'; intros Hg; try (cbn [leaves]; constructor; [exact Hg|constructor]).
-  - constructor.
-  - rewrite leaves_slice. rewrite grid_slice in Hg.
-    induction H as [|x r Hx _ IH]; [constructor|]. cbn [forallb] in Hg. apply andb_true in Hg. destruct Hg as [G1 G2].
-    cbn [flat_map]. apply Forall_app. split; [apply Hx; exact G1|apply IH; exact G2].
 Qed.
 
 Lemma variant_ty_desc_ok : forall tid, desc_ok (variant_ty tid) = true.
@@ -436,13 +404,13 @@ Section DecVariant.
   Hypothesis Hrec : forall t, desc_ok t = true -> post (Pv reg t) (rec t).
 
   Definition Pleaf (tid : Z) (x : val) : Prop :=
-    rwf0 reg (variant_ty tid) x = true /\ (grid x = true -> norm_leaf reg tid x = x).
+    rwf0 reg (variant_ty tid) x = true /\ norm_leaf reg tid x = x.
 
   Lemma post_builtin : forall tid, post (Pleaf tid) (dec_builtin rec tid).
   Proof.
     intros tid. unfold dec_builtin, Pleaf, norm_leaf. destruct (tid =? 15) eqn:E.
     - apply Z.eqb_eq in E. subst tid. eapply post_bind; [apply post_read_bytes|]. intros b [Hb Hn]. apply post_ret.
-      split; [destruct b; exact Hb|]. intros _. cbn [variant_ty].
+      split; [destruct b; exact Hb|]. cbn [variant_ty].
       change (rnorm reg TBytes (VBytes b)) with (VBytes b). destruct b as [[|c d]|]; try reflexivity. discriminate.
     - eapply post_weaken; [apply Hrec; apply variant_ty_desc_ok|]. intros x Hx. exact Hx.
   Qed.
@@ -452,7 +420,7 @@ Section DecVariant.
     unfold dec_variant. apply post_tick_bind. eapply post_bind; [apply post_read_byte|]. intros mask Hm.
     cbv beta in Hm. cbv zeta. set (tid := mask mod 64).
     destruct (tid =? 0) eqn:E0.
-    { apply post_ret. split; [|intros _; reflexivity]. rewrite rwf0_variant. fold tid. rewrite Hm, E0. reflexivity. }
+    { apply post_ret. split; [|reflexivity]. rewrite rwf0_variant. fold tid. rewrite Hm, E0. reflexivity. }
     destruct (25 <? tid) eqn:E25; [apply post_fail|]. apply Z.ltb_ge in E25.
     destruct (bit mask 7) eqn:B7; cbn [negb].
     2:{ (* scalar *)
@@ -460,8 +428,8 @@ Section DecVariant.
       pose proof (rwf0_variant_ty_not_slice reg tid v Hw) as Hns. split.
       - rewrite rwf0_variant. fold tid. rewrite Hm, E0. cbn [andb]. rewrite hdr_scalar_intro by assumption.
         rewrite payload_walker0, (leaves_not_slice v Hns). cbn [forallb]. rewrite Hw. reflexivity.
-      - rewrite grid_variant, rnorm_variant. fold tid. rewrite E0. intros Hg.
-        rewrite norm_payload_leaf by exact Hns. rewrite (Hn Hg). reflexivity. }
+      - rewrite rnorm_variant. fold tid. rewrite E0.
+        rewrite norm_payload_leaf by exact Hns. rewrite Hn. reflexivity. }
     (* arrays *)
     eapply post_bind; [apply (post_read_i 4); lia|]. intros alen _.
     destruct (max_variant_array_length <? alen) eqn:Emax; [apply post_fail|]. apply Z.ltb_ge in Emax.
@@ -491,9 +459,9 @@ Section DecVariant.
       - rewrite rwf0_variant. fold tid. rewrite Hm, E0. cbn [andb].
         rewrite (hdr_array_intro mask alen dl ds p) by (assumption || (fold tid; lia) || lia).
         rewrite payload_walker0, Els. apply forallb_forall. intros x Hx. rewrite Forall_forall in HF. apply (HF x Hx).
-      - rewrite grid_variant, rnorm_variant. fold tid. rewrite E0. intros Hg. f_equal. f_equal.
-        apply norm_payload_id. rewrite Els. apply grid_leaves in Hg. rewrite Els in Hg.
-        rewrite Forall_forall in *. intros x Hx. apply (HF x Hx). apply Hg. exact Hx. }
+      - rewrite rnorm_variant. fold tid. rewrite E0. f_equal. f_equal.
+        apply norm_payload_id. rewrite Els.
+        rewrite Forall_forall in *. intros x Hx. apply (HF x Hx). }
     destruct (dl <? 2) eqn:Ed2.
     - apply post_ret. destruct (Z.eq_dec alen (-1)) as [Ea|Ea].
       + rewrite (Hnone Ea). apply (Hfin (VSlice None) []); [reflexivity|constructor|].
@@ -559,7 +527,7 @@ Section DecExtObj.
     assert (Hnone : Pv reg (TCustom CExtObj) (VExtObj mask (Some tid) None)).
     { split.
       - rewrite rwf0_extobj, Hm, Htid. destruct (mask =? 0); reflexivity.
-      - intros _. rewrite rnorm_extobj, Hntid. destruct (mask =? 0); reflexivity. }
+      - rewrite rnorm_extobj, Hntid. destruct (mask =? 0); reflexivity. }
     destruct (mask =? 0) eqn:E0; [apply post_ret; exact Hnone|].
     eapply post_bind; [apply (post_read_u 4)|]. intros len _.
     destruct ((len =? 0) || (len =? null32)); [apply post_ret; exact Hnone|].
@@ -570,7 +538,7 @@ Section DecExtObj.
     { intros bt Ebt Hd. eapply post_bind; [apply post_run_sub; [exact Hsmall|apply Hrec; exact Hd]|].
       intros v [Hw Hn]. apply post_ret. split.
       - rewrite rwf0_extobj, Hm, Htid, E0, Ebt, Hw. reflexivity.
-      - rewrite grid_extobj, rnorm_extobj, Hntid, E0, Ebt. intros Hg. rewrite (Hn Hg). reflexivity. }
+      - rewrite rnorm_extobj, Hntid, E0, Ebt. rewrite Hn. reflexivity. }
     unfold extobj_body_ty in Hsome. destruct (mask =? 2) eqn:E2.
     - apply (Hsome xml_body_ty eq_refl eq_refl).
     - destruct (lookup_expnodeid reg tid) as [t|] eqn:El; [|apply post_ret; exact Hnone].
@@ -596,16 +564,15 @@ Section DecMain.
 
   Lemma post_fields : forall (D : ty -> dec val) fs,
     Forall (fun t => post (Pv reg t) (D t)) fs ->
-    post (fun vs => rwf0_struct reg fs vs = true /\ (forallb grid vs = true -> rnorm_struct reg fs vs = vs))
+    post (fun vs => rwf0_struct reg fs vs = true /\ rnorm_struct reg fs vs = vs)
          (dec_fields (map D fs)).
   Proof.
     intros D fs H. induction H as [|t fs' Ht _ IH]; cbn [map dec_fields].
-    - apply post_ret. split; [reflexivity|intros _; reflexivity].
+    - apply post_ret. split; [reflexivity|reflexivity].
     - eapply post_bind; [exact Ht|]. intros x [Hw Hn]. eapply post_bind; [exact IH|]. intros xs [Hws Hns].
       apply post_ret. split.
       + cbn [rwf0_struct]. fold (rwf0_struct reg). rewrite Hw, Hws. reflexivity.
-      + cbn [forallb rnorm_struct]. fold (rnorm_struct reg). intros Hg. apply andb_true in Hg. destruct Hg as [G1 G2].
-        rewrite (Hn G1), (Hns G2). reflexivity.
+      + cbn [rnorm_struct]. fold (rnorm_struct reg). rewrite Hn, Hns. reflexivity.
   Qed.
 
   Theorem decode_wf : forall fuel t, desc_ok t = true -> post (Pv reg t) (decode reg fuel t).
@@ -613,14 +580,14 @@ Section DecMain.
     induction fuel as [|f IHf]; intros t Ht; [intros bs x rest al _ E; discriminate|].
     revert Ht. induction t using ty_ind'; intros Ht.
     - (* bool *)
-      cbn [decode]. eapply post_bind; [apply post_read_byte|]. intros b _. apply post_ret. split; [reflexivity|intros _; reflexivity].
+      cbn [decode]. eapply post_bind; [apply post_read_byte|]. intros b _. apply post_ret. split; [reflexivity|reflexivity].
     - (* int *)
       cbn [decode desc_ok] in *.
       assert (Hw1 : (1 <= w)%nat) by (unfold width_ok in Ht; destruct w as [|w]; [discriminate|lia]).
       destruct s.
-      + eapply post_bind; [apply (post_read_i w Hw1)|]. intros z Hz. apply post_ret. split; [|intros _; reflexivity].
+      + eapply post_bind; [apply (post_read_i w Hw1)|]. intros z Hz. apply post_ret. split; [|reflexivity].
         change (rwf0 reg (TInt w true) (VInt z)) with (width_ok w && int_ok w true z). rewrite Ht. apply i_ok_intro. exact Hz.
-      + eapply post_bind; [apply (post_read_u w)|]. intros z Hz. apply post_ret. split; [|intros _; reflexivity].
+      + eapply post_bind; [apply (post_read_u w)|]. intros z Hz. apply post_ret. split; [|reflexivity].
         change (rwf0 reg (TInt w false) (VInt z)) with (width_ok w && int_ok w false z). rewrite Ht. apply u_ok_intro. exact Hz.
     - (* float *)
       cbn [decode desc_ok] in *.
@@ -630,26 +597,26 @@ Section DecMain.
       + change (rwf0 reg (TFloat w) (VInt (canon_float w z))) with (float_ok w (canon_float w z)).
         unfold float_ok. rewrite Ht. pose proof (canon_range w z Hw4 Hz) as Hc. cbn [andb].
         apply andb_true_intro. split; [apply Z.leb_le|apply Z.ltb_lt]; lia.
-      + intros _. change (rnorm reg (TFloat w) (VInt (canon_float w z))) with (VInt (canon_float w (canon_float w z))).
+      + change (rnorm reg (TFloat w) (VInt (canon_float w z))) with (VInt (canon_float w (canon_float w z))).
         rewrite canon_idem by exact Hw4. reflexivity.
     - (* string *)
-      cbn [decode]. eapply post_bind; [apply post_read_string|]. intros s Hs. apply post_ret. split; [exact Hs|intros _; reflexivity].
+      cbn [decode]. eapply post_bind; [apply post_read_string|]. intros s Hs. apply post_ret. split; [exact Hs|reflexivity].
     - (* time *)
-      cbn [decode]. eapply post_bind; [apply post_read_time|]. intros t Ht'. apply post_ret. split; [exact Ht'|].
-      intros Hg. change (rnorm reg TTime (VTime t)) with (VTime (norm_time t)). rewrite norm_time_grid; [reflexivity|exact Hg].
+      cbn [decode]. eapply post_bind; [apply post_read_time|]. intros t [Ht' Hnt]. apply post_ret. split; [exact Ht'|].
+      change (rnorm reg TTime (VTime t)) with (VTime (norm_time t)). rewrite Hnt. reflexivity.
     - (* []byte *)
       cbn [decode]. unfold dec_bytes. eapply post_bind; [apply (post_read_u 4)|]. intros n Hn.
-      destruct (n =? null32); [apply post_ret; split; [reflexivity|intros _; reflexivity]|].
+      destruct (n =? null32); [apply post_ret; split; [reflexivity|reflexivity]|].
       destruct (max_int32 <? n) eqn:Emax; [apply post_fail|]. apply Z.ltb_ge in Emax.
       eapply post_bind; [apply post_remaining|]. intros r _. destruct (r <? n); [apply post_fail|].
-      eapply post_bind; [apply post_read_n|]. intros d [Hd _]. apply post_ret. split; [|intros _; reflexivity].
+      eapply post_bind; [apply post_read_n|]. intros d [Hd _]. apply post_ret. split; [|reflexivity].
       change (rwf0 reg TBytes (VBytes (Some d))) with (str_ok d). unfold str_ok. apply Z.leb_le. lia.
     - (* slice *)
       cbn [desc_ok] in Ht. apply andb_true in Ht. destruct Ht as [Hmin Ht].
       change (decode reg (S f) (TSlice t)) with
         (dec_slice (match t with TPtr x => 8 + tsize x | TCustom _ => 8 | _ => tsize t end)%N (decode reg (S f) t)).
       unfold dec_slice. eapply post_bind; [apply (post_read_u 4)|]. intros n Hn.
-      destruct (n =? null32); [apply post_ret; split; [reflexivity|intros _; reflexivity]|].
+      destruct (n =? null32); [apply post_ret; split; [reflexivity|reflexivity]|].
       destruct (max_int32 <? n) eqn:Emax; [apply post_fail|]. apply Z.ltb_ge in Emax.
       eapply post_bind; [apply post_remaining|]. intros r _. destruct (r <? n); [apply post_fail|].
       apply post_tick_bind. eapply post_bind; [apply post_dec_n; apply IHt; exact Ht|]. intros l [HF Hl].
@@ -659,33 +626,32 @@ Section DecMain.
            (fix go (l : list val) : bool := match l with [] => true | x :: r => rwf0 reg t x && go r end) l).
         rewrite rwf0_list_forall, Hmin. replace (zlen l <=? max_int32) with true by (symmetry; apply Z.leb_le; cbv beta in Hn; unfold zlen, max_int32 in *; lia).
         cbn [andb]. apply forallb_forall. intros x Hx. rewrite Forall_forall in HF. apply (HF x Hx).
-      + rewrite grid_slice. intros Hg. cbn [rnorm]. rewrite rnorm_list_map. f_equal. f_equal.
-        rewrite forallb_forall in Hg. rewrite Forall_forall in HF.
-        rewrite <- (map_id l) at 2. apply map_ext_in. intros x Hx. apply (HF x Hx). apply Hg. exact Hx.
+      + cbn [rnorm]. rewrite rnorm_list_map. f_equal. f_equal. rewrite Forall_forall in HF.
+        rewrite <- (map_id l) at 2. apply map_ext_in. intros x Hx. apply (HF x Hx).
     - (* pointer *)
       cbn [desc_ok] in Ht. change (decode reg (S f) (TPtr t)) with (dec_ptr t (decode reg (S f) t)).
       unfold dec_ptr. destruct t; try apply post_panic;
         (apply post_tick_bind; eapply post_bind; [apply IHt; exact Ht|]; intros v [Hw Hn]; apply post_ret; split;
          [match goal with |- rwf0 _ (TPtr ?e) _ = true => change (ptr_elem_ok e && rwf0 reg e v = true) end; rewrite Hw; reflexivity
-         |intros Hg; cbn [rnorm]; rewrite (Hn Hg); reflexivity]).
+         |cbn [rnorm]; rewrite Hn; reflexivity]).
     - (* struct *)
       cbn [desc_ok] in Ht. rewrite forallb_forall in Ht.
       change (decode reg (S f) (TStruct fs)) with
         (bind (dec_fields (map (decode reg (S f)) fs)) (fun vs => ret (VStruct vs))).
       eapply post_bind.
       + apply post_fields. rewrite Forall_forall in *. intros t Hin. apply H; [exact Hin|apply Ht; exact Hin].
-      + intros vs [Hw Hn]. apply post_ret. split; [exact Hw|]. rewrite grid_struct. intros Hg.
-        change (rnorm reg (TStruct fs) (VStruct vs)) with (VStruct (rnorm_struct reg fs vs)). rewrite (Hn Hg). reflexivity.
+      + intros vs [Hw Hn]. apply post_ret. split; [exact Hw|].
+        change (rnorm reg (TStruct fs) (VStruct vs)) with (VStruct (rnorm_struct reg fs vs)). rewrite Hn. reflexivity.
     - (* hand-written codecs *)
       assert (Hrec : forall t, desc_ok t = true -> post (Pv reg t) (decode reg f t)) by (intros t; apply IHf).
       destruct c; cbn [decode dec_custom].
       + apply post_variant. exact Hrec.
       + apply post_datavalue. apply Hrec. reflexivity.
       + apply post_diag. exact Hrec.
-      + eapply post_weaken; [apply post_loctext|]. intros v Hv. destruct v; try discriminate. split; [exact Hv|intros _; reflexivity].
-      + eapply post_weaken; [apply post_nodeid|]. intros v [Hv Hn]. destruct v; try discriminate. split; [exact Hv|intros _; exact Hn].
-      + eapply post_weaken; [apply post_expnodeid|]. intros v [Hv [Hn _]]. destruct v; try discriminate. split; [exact Hv|intros _; exact Hn].
+      + eapply post_weaken; [apply post_loctext|]. intros v Hv. destruct v; try discriminate. split; [exact Hv|reflexivity].
+      + eapply post_weaken; [apply post_nodeid|]. intros v [Hv Hn]. destruct v; try discriminate. split; [exact Hv|exact Hn].
+      + eapply post_weaken; [apply post_expnodeid|]. intros v [Hv [Hn _]]. destruct v; try discriminate. split; [exact Hv|exact Hn].
       + apply post_extobj; [exact Hreg|exact Hrec].
-      + eapply post_weaken; [apply post_guid|]. intros v Hv. destruct v; try discriminate. split; [exact Hv|intros _; reflexivity].
+      + eapply post_weaken; [apply post_guid|]. intros v Hv. destruct v; try discriminate. split; [exact Hv|reflexivity].
   Qed.
 End DecMain.
